@@ -637,6 +637,11 @@ def run(c, facts):
     import c08 as _c08
     R11 = c.rule('C10.R11', 'IMPORTS-DECLARED: every `use` statement takes effect, whatever other statement names the same file under another spelling or qualifier (shared with C08.R15)')
     c.shared(R11, _c08.r15_imports_declared, 'C08.R15', facts)
+    import c13 as _c13
+    import c15 as _c15
+    R12 = c.rule('C10.R12', 'LOADER-FAITHFUL: what module::load walks is the import graph of the current, whole texts: a front end\'s Loader::parse fails whenever the parser reported an error (a truncated tree has lost the `use` statements after the error), and the server\'s loader reads the text the client last sent (shared with C13.R4, C15.R6)')
+    c.shared(R12, _c13.r4_err_disc, 'C13.R4', facts)
+    c.shared(R12, _c15.r6_doc_sync, 'C15.R6', facts)
     c.run(r10_locator_identity, facts)
     c.run(r9_use_order, facts)
     c.run(r8_spelling, facts)
